@@ -469,6 +469,8 @@ SEED_BOOKS = {
     "mo_one": [Mo(B, 2), L(B, 99, 1)],
     "mo_both": [Mo(B, 2), Mo(S, 1), L(S, 100, 1)],
     "mo_both_eq": [("R",), Mo(B, 1), Mo(S, 1), L(B, 100, 1), L(S, 101, 1), ("R",)],
+    # ... with limit orders about to expire resting behind the market orders of both sides
+    "mo_both_ttl_behind": [Mo(B, 3), Mo(S, 3), L(S, 100, 1, 1), L(B, 99, 1, 1), ("X",)],  # seed books are built without automatic rounds: the explicit round lets the market look at this book once
     # orders about to expire on both sides, one of them partially filled
     "expiring": [L(B, 99, 2, 1), L(S, 101, 1, 1), L(B, 100, 2, 2), L(S, 100, 1, None), ("X",), Mo(S, 1, 1)],
     # two resting orders per side sharing one expiry time (one expiry bucket), one partially filled
@@ -488,6 +490,9 @@ SEED_KW = {
     # decimal tick sizes (k*tick is not exactly representable): empty books on ticks 0.1 and 1e-5
     "tick01": (dict(tick=0.1), []),
     "tick1e5": (dict(tick=0.00001), []),
+    # tick sizes that are not one digit times a power of ten
+    "quartertick": (dict(tick=0.25), []),
+    "tick2_5": (dict(tick=2.5), []),
     # the market under test is an IndexMarket (two components; op XC stops / restarts a component)
     "index": (dict(index=True), [L(B, 99, 1), L(S, 101, 1)]),
     "index_component_stopped": (dict(index=True), [("XC",), L(B, 99, 1), L(S, 101, 2, 2)]),
